@@ -3,7 +3,7 @@ CONSTANTS
   D = 2
   NV = 1
   DeltaVecs <- DV_std
-  Dists <- Dists_two
+  Dists <- Dists_sym
   Lim2 <- Lim2_all
   MapIds = {1}
   Conds <- Conds_quick
